@@ -3,6 +3,7 @@
 package main
 
 import (
+	"bytes"
 	"errors"
 	"math/big"
 
@@ -44,7 +45,15 @@ func init() {
 			if !sig.Verify(hash, key.PubKey()) {
 				return "SELF-VERIFY-FAILED"
 			}
-			return "ok " + hx(sig.Serialize())
+			out := hx(sig.Serialize())
+			// what Serialize hands out belongs to the caller: overwriting it changes neither the object nor later answers
+			if m := scribbleStable("schnorr.Signature.Serialize", func() []byte { return sig.Serialize() }); m != "" {
+				return m
+			}
+			if !sig.Verify(hash, key.PubKey()) || hx(sig.Serialize()) != out {
+				return "OBJECT-CHANGED-BY-CALLER-WRITE"
+			}
+			return "ok " + out
 		})
 	}
 	opImpl["schnorr_sign_nonce"] = func(a []string) string {
@@ -76,10 +85,28 @@ func init() {
 			if err != nil {
 				return "err " + schnorrErrKind(err)
 			}
-			return "ok " + hx(sig.Serialize())
+			out := hx(sig.Serialize())
+			if m := scribbleStable("schnorr.Signature.Serialize", func() []byte { return sig.Serialize() }); m != "" {
+				return m
+			}
+			return "ok " + out
 		})
 	}
 	generators["C11"] = genC11
+}
+
+// scribbleStable: a method that returns bytes must hand out memory of its own — after the caller overwrites the
+// returned slice the next call still gives the original answer
+func scribbleStable(name string, get func() []byte) string {
+	b1 := get()
+	want := append([]byte{}, b1...)
+	for i := range b1 {
+		b1[i] ^= 0xa5
+	}
+	if b2 := get(); !bytes.Equal(b2, want) {
+		return "RETURNS-INTERNAL-BUFFER " + name
+	}
+	return ""
 }
 
 // the op line carries the BLAKE-256 answers as trailing oracle=in:out fields
